@@ -70,8 +70,11 @@ static void gen_frame(Rng& q, std::string& out, int depth, int& id, bool cls) {
   out += "</frame>";
 }
 
+// `files` (optional): some inline meshes become binary MSH files of a virtual file system (name -> bytes).  Two mesh elements may name the
+// same file with different scale / smoothnormal / inertia / refpos, so the compiler's global asset cache (keyed by file name) is in play.
+typedef std::vector<std::pair<std::string, std::string>> Files;
 static std::string gen_xml(Rng& r, int* nmesh_out, int* ntex_out, int* nmuscle_out, const std::set<int>& mdrop, bool collide = false, bool* fuse_out = nullptr,
-                           int* nstruct_out = nullptr) {
+                           int* nstruct_out = nullptr, Files* files = nullptr) {
   int elem = 0;
   auto keep = [&]() { return !mdrop.count(elem++); };
   std::string asset, geoms, x;
@@ -88,7 +91,21 @@ static std::string gen_xml(Rng& r, int* nmesh_out, int* ntex_out, int* nmuscle_o
       const Shape& sh = kShapes[q.below(4)];
       // jitter vertices a little (orientation of the faces is preserved)
       std::string v; const char* p = sh.verts;
-      for (int k = 0; k < 3 * sh.nv; k++) { double val = strtod(p, (char**)&p); v += f(val + q.uniform(-0.08, 0.08)) + " "; }
+      std::vector<float> fv;
+      for (int k = 0; k < 3 * sh.nv; k++) { double val = strtod(p, (char**)&p); double jv = val + q.uniform(-0.08, 0.08); v += f(jv) + " "; fv.push_back((float)jv); }
+      bool asfile = files && q.chance(0.45);
+      if (asfile && !files->empty() && q.chance(0.35)) {
+        a += "file=\"" + (*files)[q.below((int)files->size())].first + "\"";   // a second mesh element on an existing file
+      } else if (asfile) {
+        std::vector<int> fi; const char* pf = sh.faces; while (*pf) { char* e; long x = strtol(pf, &e, 10); if (e == pf) break; fi.push_back((int)x); pf = e; }
+        int hdr[4] = {sh.nv, 0, 0, (int)fi.size() / 3};
+        std::string bytes((const char*)hdr, sizeof hdr);
+        bytes.append((const char*)fv.data(), fv.size() * sizeof(float));
+        bytes.append((const char*)fi.data(), fi.size() * sizeof(int));
+        std::string fn = "m" + std::to_string(files->size()) + ".msh";
+        files->push_back({fn, bytes});
+        a += "file=\"" + fn + "\"";
+      } else
       a += "vertex=\"" + v + "\" face=\"" + sh.faces + "\"";
       if (q.chance(0.5)) a += " scale=\"" + f(q.uniform(0.05, 0.3)) + " " + f(q.uniform(0.05, 0.3)) + " " + f(q.uniform(0.05, 0.3)) + "\"";
       if (q.chance(0.3)) a += " inertia=\"" + std::string(q.chance(0.5) ? "shell" : "exact") + "\"";
